@@ -3,7 +3,7 @@ Shared by C05 (grammar), C06 (watermark contract), C07 (aggregation value), C12.
 import z3
 from lib.runner import Task
 from mirsym.values import Int, Agg, Enum, Ref, is_sym, mk_int, unit, deep_copy
-from mirsym.executor import PyObj, Unsupported
+from mirsym.executor import PyObj, Unsupported, RustPanic
 from mirsym.explore import check, Violation
 from mirsym.models import zbool, some, none, deref
 from mirsym import hlib
@@ -642,7 +642,23 @@ def time_window_harness(w, kind, size, slide, max_len):
             t = ex.binop('Add', t, d)
             clock.append(t)
         ex.env['clock_script'] = list(clock)
-        outs = drive_manager(ex, proc, [mgr], script)
+        if ex.env.get('native'):
+            # real sleeps reproduce the clock script (one tick = 40 ms): reliable away from window boundaries only
+            args = [size, slide if kind == 'processing' else 0, len(script)]
+            prev = 1000
+            for i, e in enumerate(script):
+                t = hlib.concrete_int(ex, clock[i])
+                args += [t - prev, e.fields[0].v if e.variant == 'Item' else (-5 if e.variant == 'FlushAndRestart' else -4)]
+                prev = t
+            runner, prof = ex.env['native']
+            ex.env['native_used'] = True
+            txt = runner('mgr_session' if kind == 'session' else 'mgr_processing', args, timeout=120)[prof]
+            ex.env['native_out'] = txt
+            if txt == 'PANIC':
+                raise RustPanic('the real window manager panicked')
+            outs = [(i, [hlib.parse_token(t, True) for t in c.split()]) for i, c in enumerate(txt.split('|'))]
+        else:
+            outs = drive_manager(ex, proc, [mgr], script)
         sx = lambda: {'kind': kind, 'size': size, 'slide': slide, 'script': [repr(e) for e in script],
                       'clock': [repr(c) for c in clock], 'results': [[repr(r) for r in rs] for _, rs in outs]}
         ids = [e.fields[0].v for e in script if e.variant == 'Item']
